@@ -6,7 +6,7 @@
 set -u
 P=$1; M=$2; shift 2
 CHECKS=${@:-$P}
-SRC=/tmp/seed_out/$P/$M; [ -d "$SRC" ] || SRC=/verif/seeded/$P-$M
+SRC=${SEED_SRC:-/tmp/seed_out}/$P/$M; [ -d "$SRC" ] || SRC=/verif/seeded/$P-$M
 WT=/tmp/seedcheck_$P$M
 git -C /repo worktree remove --force $WT >/dev/null 2>&1
 git -C /repo worktree add --detach $WT >/dev/null 2>&1 || { echo "cannot create worktree"; exit 2; }
